@@ -60,7 +60,10 @@ impl Prop for C05 {
             let extra_before = r.world.shadow_failed_extra();
             let notes = r.apply_edits(step);
             let sent = r.send(step, notes);
-            r.barrier();
+            if !r.barrier() {
+                out.fail("reload-lost", format!("step {sn}: the notified change of a loaded asset's file (the barrier's sentinel) was never applied although hot_reload kept returning"));
+                break;
+            }
             let grew: BTreeMap<AKey, u32> = r.watches.iter().map(|(k, w)| (k.clone(), w.growths)).collect();
             let checked = hot::check_convergence(&r, &mut out, sn, &grew, &deps_before, &sent);
             if out.failed() {
